@@ -157,6 +157,12 @@ func (sesh *Session) OpenStream() (*Stream, error) {
 	}
 	stream := makeStream(sesh, id)
 	sesh.streamsM.Lock()
+	// the session may have been closed since the check above; closeSession closes the streams it finds
+	// in the table under streamsM, so a stream added after that would never be closed
+	if sesh.IsClosed() {
+		sesh.streamsM.Unlock()
+		return nil, ErrBrokenSession
+	}
 	sesh.streams[id] = stream
 	sesh.streamsM.Unlock()
 	sesh.streamCountIncr()
